@@ -219,6 +219,8 @@ def step (st : St) (line : String) : St × String :=
     | .ok K => ({ st with K := K, L := none }, s!"ok {K.n} {K.m} {showList K.rows.toList}")
     | .error e => (st, e.name)
   -- validation
+  | ["overlap", os, ps] =>
+    (st, let l := overlapNames (parseList os) (parseList ps); if l.isEmpty then "-" else ",".intercalate l)
   | ["ctor", os, ps, lens] =>
     (st, if ctorAccepts (parseList os) (parseList ps) (parseNatList lens) then "ok" else "ValueError")
   | ["fromdict", req, os, ps, rows, lat] =>
